@@ -242,7 +242,19 @@ def vertex_alignment(ctx, modname, fn, x, which):
         return
     a = apps[0][0]
     stores = [(e, which(x.canon(e.base), e.base)) for e in x.effects if e.kind == "setitem" and which(x.canon(e.base), e.base)]
+    all_stores = stores
     stores = [(e, w) for e, w in stores if len(e.frames) == 1 and len(a.frames) == 1 and e.frames[0] is a.frames[0]]
+    # the vertices may be appended by iterating the mesh -> boundary map itself: a dictionary is iterated in insertion order, so the append
+    # order is the order of the boundary indices as soon as the map was filled with `map[v] = position in the filling loop`
+    if not stores and len(a.frames) == 1 and a.frames[0].kind == "keys" and which(x.canon(a.frames[0].dom), a.frames[0].dom) == "f" and not a.conds:
+        arg = a.args[0]
+        fwd = [e for e, w in all_stores if w == "f"]
+        in_order = fwd and all(len(e.frames) == 1 and e.frames[0].kind == "seq" and isinstance(e.value, ast.Name) and e.value.id == e.frames[0].var
+                               and len(e.conds) == 0 for e in fwd) and len(fwd) == 1
+        if isinstance(arg, ast.Subscript) and isinstance(arg.value, ast.Attribute) and arg.value.attr == "vertices" \
+                and isinstance(arg.slice, ast.Name) and arg.slice.id == a.frames[0].var and in_order:
+            ctx.ok("C03-P1", site, f"{fn.name}: vertices appended in the insertion order of the map, which is the order of the boundary indices")
+            return
     if not stores or a.conds or any(e.conds for e, _ in stores) or a.frames[0].kind != "seq":
         ctx.undecided("C03-P1", site, f"{fn.name}: the vertex append and the map store are not made unconditionally in one loop", "")
         return
@@ -703,6 +715,15 @@ def e1_incidence_tables(ctx):
     site = ctx.site(VOL, fn)
     x = q.summarise(repo, VOL, CONN, fn, policy=BUILD)
     st = q.setitems(x, "_adjC2C")
+    # `index or default`: an index query answers 0 for element 0, which is falsy
+    INDEX_QUERIES = {"other_face_side", "face_id", "edge_id", "cell_to_cell", "common_face"}
+    for e in st:
+        v = e.value
+        if isinstance(v, ast.BoolOp) and isinstance(v.op, ast.Or) and isinstance(v.values[0], ast.Call) and q.field(v.values[0].func) in INDEX_QUERIES:
+            ctx.fail("C03-E1", ctx.site(VOL, e.fn, e.node),
+                     f"the adjacent cell is stored as `{q.field(v.values[0].func)}(..) or <default>`: the truth value of an index decides, and index 0 is falsy",
+                     "cell 0 is never recorded as a neighbour: cell_to_cell misses it for every cell adjacent to cell 0")
+            return
     verdict = None
     seen_local = set()
     for e in st:
@@ -912,6 +933,7 @@ def q1_orientation(ctx):
                     and sx.is_special(e.base.value, "$obj") and len(e.args) == 1:
                 writes.append((e, x.expand(e.args[0])))
         bad = None
+        unread = []
         n_read = 0
         for e, v0, lconds, v in [(e, v, lc_, leaf) for e, v in writes for lc_, leaf in sx.leaves(v)]:
             order = _face_order(v)
@@ -921,8 +943,23 @@ def q1_orientation(ctx):
             if not _reverses(order):
                 continue
             tests = [x.expand(t) for t, _ in list(e.conds) + list(lconds)]
-            about_cell = any(isinstance(n, ast.Attribute) and n.attr in CELL_WORDS for t in tests for n in ast.walk(t))
-            if not about_cell and bad is None:
+            # what the tests depend on, through the arrays / containers they read: values stored into a container that a test mentions
+            deps = list(tests)
+            for _ in range(4):
+                keys = {au.norm(n) for t in deps for n in ast.walk(t) if isinstance(n, (ast.Call, ast.Name, ast.Attribute, ast.Subscript))}
+                more = [x.expand(t) for s_ in x.effects if s_.kind in ("setitem", "aug") and au.norm(s_.base) in keys
+                        for t in (s_.value, s_.key) if isinstance(t, ast.AST)]
+                more = [t for t in more if au.norm(t) not in {au.norm(d) for d in deps}]
+                if not more:
+                    break
+                deps += more
+            about_cell = any(isinstance(n, ast.Attribute) and n.attr in CELL_WORDS for t in deps for n in ast.walk(t))
+            opaque = any((isinstance(n, ast.Name) and n.id.startswith(("$mu", "$after", "$u", "$gen"))) or
+                         (isinstance(n, ast.Attribute) and isinstance(n.value, ast.Name) and n.value.id in ("np", "numpy"))
+                         for t in deps for n in ast.walk(t))
+            if not about_cell and opaque:
+                unread.append(e)
+            elif not about_cell and bad is None:
                 bad = (e, order, bool(tests))
         if bad is not None:
             e, order, cond = bad
@@ -931,6 +968,9 @@ def q1_orientation(ctx):
                      ("under a test that does not look at the cell incident to the face" if cond else "unconditionally"),
                      "which side of a border face is outside is decided by its one incident cell; a criterion that ignores the cell "
                      "(a global reference point, the face alone) flips correctly oriented faces on non-convex domains")
+        elif unread:
+            ctx.undecided("C03-Q1", ctx.site(modname, unread[0].fn, unread[0].node),
+                          f"{fn.name}: a boundary face is written reversed under a test computed through arrays that could not be traced to the incident cell", "")
         else:
             ctx.ok("C03-Q1", site, f"{fn.name}: {n_read} face write(s) read, none reversed without looking at the incident cell")
 
